@@ -514,6 +514,10 @@ func runC19(c *ShardCtx) {
 				{Name: "S", Expr: peg.Seq(peg.Star(peg.Choice(peg.Ref("W"), peg.Ref("N"), peg.Ref("P"))), peg.Not(peg.Any()))},
 				{Name: "W", Expr: peg.Plus(cl(false, true, "a-z", "_"))}, {Name: "N", Expr: peg.Plus(cl(false, false, "0-9"))}, {Name: "P", Expr: cl(false, false, " ", "\t", "\n", ",", ";")},
 				{Name: "X1", Expr: cl(true, true, "a-z")}, {Name: "X2", Expr: cl(false, false, `\p{Nd}`, "é")}, {Name: "X3", Expr: cl(false, false, "a-z", "_")},
+				// (classes whose members repeat, overlap and tie after case folding: ranges with the same
+				// lower-cased start and different ends, the same range twice, chars inside ranges)
+				{Name: "X4", Expr: cl(false, true, "a-c", "A-F", "a-z", "A-C", "b", "B")}, {Name: "X5", Expr: cl(true, true, "A-F", "a-c", "a-a", "A-Z", "k", "K", "\u212a")},
+				{Name: "X6", Expr: cl(false, false, "a-c", "a-f", "a-c", "a", "a")},
 			}},
 		}
 		for _, g := range rich {
